@@ -35,6 +35,7 @@ func genC19(seed uint64, tier string) *Plan {
 	p.Knobs["unsub_backoff_s"] = float64(r.rng(1, 5))
 	p.Knobs["queue_size"] = float64([]int{2, 8, 32}[r.intn(3)])
 	p.Knobs["file_tracers"] = float64(b2i(r.chance(0.2)))
+	p.SK["sign"] = []string{"strict", "strict", "strictnosign", "laxsign", "laxnosign"}[r.intn(5)]
 	p.Knobs["seen_ttl_ms"] = 600000
 	p.Knobs["rsize"] = float64(r.rng(1, 4))
 	genDegrees(r, p, 4)
@@ -70,8 +71,10 @@ func genC19(seed uint64, tier string) *Plan {
 			add("graft", i, t)
 		case x < 53:
 			add("prune", i, t, int64(r.intn(2)*r.rng(1, 20)))
-		case x < 61:
+		case x < 59:
 			add("pub", i, t, int64(r.rng(8, 100)))
+		case x < 61:
+			add("pubdup", i, t, int64(r.rng(8, 100)))
 		case x < 66:
 			add("resend", i, int64(r.intn(5)))
 		case x < 74:
